@@ -63,6 +63,8 @@ def diff_all(roots, wrt: Sym, nodes=None, complex_step=False):
         elif op == "abs":
             a = n.args[0]
             r = ZERO if complex_step else mul(div(n, a), d[a.nid])
+        elif op == "re":
+            r = ZERO if complex_step else d[n.args[0].nid]
         elif op == "ufn":
             name, index = n.args[0], n.args[1]
             fargs = n.args[2:]
